@@ -96,6 +96,18 @@ class DisTables:
                         self.lines[(name, sf.lit().ev(k))] = v.lineno
                     except NotLiteral:
                         pass
+        # entries added after the literal (loops, single stores) belong to the base tables too
+        rest = [st for st in meths['create_opcodes'].body
+                if not (isinstance(st, ast.Assign) and isinstance(st.targets[0], ast.Attribute) and isinstance(st.value, ast.Dict))]
+        if rest:
+            f2 = StoreFold(repo, 'disassembler')
+            try:
+                f2.run(rest)
+            except NotLiteral as e:
+                raise FactError('skoolkit/disassembler.py: create_opcodes builds a table in a way that is not foldable (%s)' % e)
+            for attr, key, val, line in f2.stores:
+                self.base.setdefault(attr, {})[key] = val
+                self.lines[(attr, key)] = line
         for t in ('ops', 'after_CB', 'after_DD', 'after_ED', 'after_DDCB'):
             if t not in self.base:
                 raise FactError('skoolkit/disassembler.py: table self.%s not found in create_opcodes' % t)
